@@ -5,6 +5,7 @@ import (
 	"fmt"
 	"strconv"
 	"testing"
+	"time"
 
 	"github.com/redis/rueidis"
 	"pgregory.net/rapid"
@@ -170,7 +171,7 @@ func c19Check(c *stat.Collector, rt stat.Fataler, plan kPlan, run kRun) (nt bool
 	if run.Res.Panic != nil {
 		c.Fail(rt, "C19.no-panic", run.Res.String(), plan)
 	}
-	obs := kObserve(plan, run.Events)
+	obs := kObserve(plan, run)
 	faulty, _ := kFaulty(plan, run)
 	m := plan.Cfg.MaxRedir
 	topoChanged := false
@@ -234,7 +235,7 @@ func c19Check(c *stat.Collector, rt stat.Fataler, plan kPlan, run kRun) (nt bool
 						continue
 					}
 					cls[map[string]string{"MOVED": "moved", "ASK": "ask"}[kind]] = true
-					if faulty {
+					if faulty || ss[i].R.Doubtful {
 						// a killed node or a fired deadline closes connections under other calls: the send that followed
 						// the redirect may have been lost on such a connection and the log would show a later retry instead
 						cls["redirect-in-faulty-plan"] = true
@@ -348,7 +349,9 @@ func TestVerif_C19_Routing(t *testing.T) {
 			plan.Cfg.RESP2 = false
 		}
 		saveCase("c19", plan)
+		t0 := time.Now()
 		run := kRunPlan(t, plan)
+		kSlow("c19", plan, t0)
 		if run.Res.Frozen {
 			c.Inconclusive("virtual-clock-freeze")
 			return
